@@ -247,7 +247,9 @@ func onResourceRuleUpdate(res string, rawResRules []*Rule) (err error) {
 	}
 	tcMux.Unlock()
 
-	currentRules[res] = rawResRules
+	// keep a copy of the list: the caller may go on using its slice (replace an element and load it
+	// again), and a slice compared with itself always looks unchanged
+	currentRules[res] = append([]*Rule(nil), rawResRules...)
 
 	logging.Debug("[HotSpot onResourceRuleUpdate] Time statistic(ns) for updating hotspot param flow rules", "timeCost", util.CurrentTimeNano()-start)
 	logging.Info("[HotSpot] load resource level hotspot param flow rules", "resource", res, "validResRules", validResRules)
